@@ -344,7 +344,7 @@ func gap(r *hx.Rand, class int, sep bool, last bool) string {
 func render(lex []Lex, r *hx.Rand, class int) (src string, offs []int) {
 	var b strings.Builder
 	if class == layWild && r.Chance(1, 3) {
-		b.WriteString("﻿")
+		b.WriteString("\ufeff")
 	}
 	if len(lex) == 0 {
 		b.WriteString(gap(r, class, false, true))
